@@ -136,6 +136,7 @@ type seqRun struct {
 	model                                                              *treeModel
 	handles                                                            []handleRef
 	ghost                                                              map[string]string    // handle bytes -> path at first issue (C06)
+	ghostID                                                            map[string]uint64    // handle bytes -> fileid it was first issued with (C06)
 	reissued                                                           map[string]bool      // handle values the client has seen issued for more than one path
 	ident                                                              map[string][2]uint64 // path -> (ftype, fileid) at first sighting (C04)
 	cred                                                               Cred
@@ -221,6 +222,29 @@ func (r *seqRun) vio(oracle, facts, format string, a ...any) { r.o.Vio(oracle, f
 // other operation of the same run - in particular every later one - is judged exactly.
 func (r *seqRun) faulted() bool {
 	return r.faulty && (r.w.FS.Injected() != r.inj0 || r.w.FS.Stalled() != r.stall0)
+}
+
+// sawHandle records the fileid a handle value came with. The same value arriving later with another fileid
+// has been issued for another object (fileids are per path, C04) - also when the request went through a
+// directory handle that itself has two bindings by then, so that the path the harness would compute for the
+// new object is not the one the server means.
+func (r *seqRun) sawHandle(fh []byte, a *nfsclient.Fattr3) {
+	if len(fh) == 0 || a == nil || r.sc.Kind != "C05" && r.sc.Kind != "C06" {
+		return
+	}
+	if r.ghostID == nil {
+		r.ghostID = map[string]uint64{}
+	}
+	key := string(fh)
+	if old, ok := r.ghostID[key]; !ok {
+		r.ghostID[key] = a.Fileid
+	} else if old != a.Fileid {
+		simrt.Probe("handle_value_reissued_for_other_path")
+		if r.reissued == nil {
+			r.reissued = map[string]bool{}
+		}
+		r.reissued[key] = true
+	}
 }
 
 func (r *seqRun) addHandle(fh []byte, p string) {
@@ -869,6 +893,7 @@ func (r *seqRun) step(i int, op Op) {
 			}
 		}
 		if r.judge(op.Op, res.Status, expect{ok: ok}) {
+			r.sawHandle(res.FH, res.Attr)
 			r.addHandle(res.FH, child)
 			r.checkAttr(op.Op, child, res.Attr)
 			r.checkAttr(op.Op+".dir", hr.path, res.DirAttr)
@@ -1094,6 +1119,7 @@ func (r *seqRun) step(i int, op Op) {
 				m.add(child, &mnode{kind: mLink, perm: 0o777, target: op.Target, uid: r.ownerUID(op.SA), gid: r.ownerGID(op.SA)})
 			}
 			if res.FH != nil {
+				r.sawHandle(res.FH, res.Attr)
 				r.addHandle(res.FH, child)
 				r.probeHandle(res.FH, child)
 			}
@@ -1465,6 +1491,7 @@ func (r *seqRun) stepCreate(name string, op Op, hr handleRef, base *mnode, res *
 	}
 	if got {
 		if res.FH != nil {
+			r.sawHandle(res.FH, res.Attr)
 			r.addHandle(res.FH, child)
 			r.probeHandle(res.FH, child)
 		}
@@ -1600,6 +1627,7 @@ func (r *seqRun) stepReaddir(name string, op Op, hr handleRef, base *mnode) {
 				if e.Attr != nil {
 					r.checkAttr(op.Op, child, e.Attr)
 				}
+				r.sawHandle(e.FH, e.Attr)
 				if e.FH != nil && !r.loose {
 					r.addHandle(e.FH, child)
 				}
